@@ -192,4 +192,9 @@ def r4_validation(ctx) -> None:
         r.ok("C18.R4", f.qual, "strict parsing (host bits set are rejected)", loc)
     else:
         r.violation("C18.R4", f.qual, short(calls[0]), "ip_network must parse self.cidr strictly", loc)
+    pi_ = prog.func("sigma.types.SigmaCIDRExpression.__post_init__")
+    if any(isinstance(n, ast.If) and "'%' in self.cidr" in unparse(n.test).replace('"', "'") and isinstance(n.body[0], ast.Raise) and "Sigma" in unparse(n.body[0]) for n in walk_no_nested(pi_.node)):
+        r.ok("C18.R4", pi_.qual, "scoped IPv6 addresses (zone identifier) are rejected: the text forms that expand() compares have equal structure", pi_.loc)
+    else:
+        r.violation("C18.R4", pi_.qual, "if '%' in self.cidr: raise", "ip_network() accepts a zone identifier (fe80::1%eth0/128); the first address keeps it and the broadcast address does not, so the common-prefix scan of expand() runs past the shorter text: IndexError during conversion", pi_.loc)
     r.floor("C18.R4", 2)
